@@ -101,6 +101,7 @@ def floors(tier):
         "B:kind:dehb": 100 * k,
         "B:kind:dehb_geometric": 100 * k,
         "B:dehb_first_bracket_promotions": 100 * k,
+        "B:dehb_first_bracket_promotions_as_new_trial": 50 * k,
     }
 
 
@@ -353,6 +354,21 @@ class MonitorB:
                     assigned.add(tid)
                 elif not resume and p["support_pause_resume"]:
                     o.count("B:dehb_first_bracket_new_trial_instead_of_resume")
+                elif not resume and allowed is not None:
+                    # support_pause_resume=False: 'promotion as in synchronous HB, but we assign new trial_id' -- the new
+                    # trial evaluates the configuration of one of the top trials of the rung below
+                    o.count("B:dehb_first_bracket_promotions_as_new_trial")
+                    must, may = allowed
+                    keys = [k for k, d in p["space"].items() if d[0] != "const"]
+                    cfg = {k: t.config.get(k) for k in keys}
+                    src = [x for x in list(must) + list(may) if x in vt.trials and {k: vt.trials[x].config.get(k) for k in keys} == cfg]
+                    assigned = self.dehb_assigned.setdefault((b, slot["rung_index"]), set())
+                    src = [x for x in src if x not in assigned] or src
+                    if not src:
+                        o.violate("promote_exactly_top", "dehb_first_bracket_new_trial_config_is_not_that_of_a_top_trial",
+                                  {"config": cfg, "must": sorted(must), "may": sorted(may)})
+                    else:
+                        assigned.add(src[0])
             elif resume:
                 o.violate("promotion_is_resume", "dehb_resumes_outside_first_bracket", {"bracket": b, "rung": slot["rung_index"]})
         if p["use_mra"]:
